@@ -3,7 +3,7 @@ environment with recording buffer / logger / policy probes and return the
 event trace for spec/LoopTrace.tla.
 
 Every adapter is `run_<name>(sc) -> trace` with sc a scenario dict:
-  script       [(length, "term"|"trunc"), ...]   episode script (cycled)
+  script       [(length, "term"|"trunc"|"both"), ...]   episode script (cycled; "both": the last step returns both flags)
   budget       total_timesteps
   start        global_step at entry (where the routine has such a parameter)
   eplimit      total_episodes (0 = none)
@@ -12,6 +12,8 @@ Every adapter is `run_<name>(sc) -> trace` with sc a scenario dict:
   cap          replay-buffer capacity
   seed         seed
   low, high    action bounds (continuous)
+  expl_noise   exploration noise level (routines with such a parameter; 0 in one scenario)
+  gsteps       gradient steps per environment step (routines with such a parameter)
 and trace = {"id", "cfg", "events", "final": {component: digest}, "returned": ...}.
 The registry ROUTINES maps a name to (function, default scenario overrides).
 """
@@ -251,6 +253,42 @@ def run_ddqn_per(sc):
 
 # ------------------------------------------------------------------ continuous control
 _PROBE = {"fn": None}
+# Scenario parameters are pairwise different (and different from gamma = 1/2, tau = 1/4), so that a parameter handed to the
+# wrong place shows: exploration noise 3/8 (0 in one scenario: `expl_noise`), target policy noise 1/8, noise clip 5/8.
+EXPL_NOISE, TARGET_POLICY_NOISE, NOISE_CLIP = 0.375, 0.125, 0.625
+
+
+def expl_noise(sc):
+    return float(sc.get("expl_noise", EXPL_NOISE))
+
+
+def live_action_probe(get_policy, base_call):
+    """Execution probe of a ScriptEnv (envs.ScriptEnv.exec_probe) for routines that act with a deterministic policy plus
+    exploration noise: fields `has_pol`, `pol` of the step event = the action of the LIVE policy object (get_policy(); None = not built yet) at the observation
+    the environment returned last (float32 ordinals), evaluated when the environment receives the action.  `base_call` is
+    the un-probed __call__ of the policy's class (no `policy` event is emitted); the evaluation is jitted like the
+    routine's sampler (an eager evaluation differs from compiled code in the last bit)."""
+    from flax import nnx
+
+    from .exact import ord32
+
+    ev = nnx.jit(lambda p, o: base_call(p, o))
+
+    def probe(obs):
+        import jax.numpy as jnp
+
+        p = get_policy()
+        try:
+            if p is None:
+                return {"has_pol": False}
+            a = np.asarray(ev(p, jnp.asarray(np.asarray(obs, dtype=np.float32))), dtype=np.float32).reshape(-1)
+        except Exception as e:  # the policy cannot be evaluated: nothing to judge (never a verdict)
+            return {"has_pol": False, "pol_note": f"unreadable:{type(e).__name__}"}
+        if not bool(np.all(np.isfinite(a))):
+            return {"has_pol": False, "pol_note": "non-finite"}
+        return {"has_pol": True, "pol": [ord32(x) for x in a]}
+
+    return probe
 
 
 def _probed_tanh_policy():
@@ -300,7 +338,12 @@ def _ddpg_like(name, sc, train, double_q, extra, lap=False):
     rec.watch_law("policy_target", ptgt, policy, 0.25)
     rec.watch_law("q_target", qtgt, q, 0.25)
     _PROBE["fn"] = obs_probe(rec)
+    from rl_blox.blox.function_approximator.policy_head import DeterministicTanhPolicy
+
+    env.exec_probe = live_action_probe(lambda: policy, DeterministicTanhPolicy.__call__)
+    # every single target update follows tau = 1/4, also with several gradient steps per environment step (`gsteps`)
     kwargs = dict(seed=sc["seed"], total_timesteps=sc["budget"], gamma=0.5, tau=0.25, batch_size=sc["batch"], learning_starts=sc["warm"],
+                  gradient_steps=int(sc.get("gsteps", 1)),
                   replay_buffer=buf, policy_target=ptgt, q_target=qtgt, logger=logger, global_step=sc.get("start", 0), progress_bar=False)
     if sc.get("eplimit") and name != "td3_lap":
         kwargs["total_episodes"] = sc["eplimit"]
@@ -320,7 +363,7 @@ def _ddpg_like(name, sc, train, double_q, extra, lap=False):
         _PROBE["fn"] = None
     cfg = base_cfg(name, sc, warmlearn=sc["warm"], warmact=sc["warm"], explore_only_in_warmup=True, policy_probe=True, ret_applicable=True,
                    trained=["policy", "q"], targets=["policy_target", "q_target"], pairs=[["policy_target", "policy"], ["q_target", "q"]], ulpk=2, eplimit=sc.get("eplimit", 0) if name != "td3_lap" else 0,
-                   rules=_rules)
+                   rules=_rules, expl_noise8=int(round(8 * kwargs["exploration_noise"])), gsteps=kwargs["gradient_steps"])
     ret = None
     if res is not None:
         ret = getattr(res, "global_step", None)
@@ -333,21 +376,22 @@ def _ddpg_like(name, sc, train, double_q, extra, lap=False):
 def run_ddpg(sc):
     from rl_blox.algorithm import ddpg
 
-    return _ddpg_like("ddpg", sc, ddpg.train_ddpg, False, dict(exploration_noise=0.5))
+    return _ddpg_like("ddpg", sc, ddpg.train_ddpg, False, dict(exploration_noise=expl_noise(sc)))
 
 
 @routine("td3")
 def run_td3(sc):
     from rl_blox.algorithm import td3
 
-    return _ddpg_like("td3", sc, td3.train_td3, True, dict(policy_delay=sc.get("policy_delay", 2), exploration_noise=0.5, noise_clip=0.5))
+    return _ddpg_like("td3", sc, td3.train_td3, True, dict(policy_delay=sc.get("policy_delay", 2), exploration_noise=expl_noise(sc), noise_clip=NOISE_CLIP))
 
 
 @routine("td3_lap")
 def run_td3_lap(sc):
     from rl_blox.algorithm import td3_lap
 
-    return _ddpg_like("td3_lap", sc, td3_lap.train_td3_lap, True, dict(policy_delay=sc.get("policy_delay", 2), exploration_noise=0.5, noise_clip=0.5), lap=True)
+    return _ddpg_like("td3_lap", sc, td3_lap.train_td3_lap, True,
+                      dict(policy_delay=sc.get("policy_delay", 2), exploration_noise=expl_noise(sc), target_policy_noise=TARGET_POLICY_NOISE, noise_clip=NOISE_CLIP), lap=True)
 
 
 # ------------------------------------------------------------------ scenarios
@@ -361,11 +405,15 @@ def scenarios(tier, seed, routine=None):
     warm-up boundary, capacities smaller than the run (wrap-around), start counts > 0, episode limits."""
     base = dict(seed=seed % 1000 + 1, batch=2, cap=7)
     scs = [
-        dict(base, label="A", script=[(3, "term"), (1, "trunc"), (2, "trunc"), (4, "term"), (1, "term")], budget=26, start=0, eplimit=0, warm=6),
-        # scenario B runs with the boundary seed 0 (a falsy seed must still be a seed)
-        dict(base, label="B", script=[(2, "trunc"), (3, "term"), (1, "term")], budget=17, start=3, eplimit=0, warm=5, seed=0),
-        # scenario C: the action space is declared with dtype float64 (continuous routines)
-        dict(base, label="C", script=[(4, "term"), (2, "trunc"), (3, "term")], budget=30, start=0, eplimit=4, warm=4, act_dtype="float64"),
+        # step kinds are complete in every scenario: continue, terminated, truncated and BOTH flags at once (scenario A:
+        # once in the warm-up and once after it; B: a one-step episode; C: the episode that exhausts the episode limit)
+        dict(base, label="A", script=[(3, "term"), (1, "trunc"), (2, "both"), (4, "term"), (1, "term")], budget=26, start=0, eplimit=0, warm=6),
+        # scenario B runs with the boundary seed 0 (a falsy seed must still be a seed); more than one gradient step per
+        # environment step where the routine has such a parameter (every single update follows the configured rule)
+        dict(base, label="B", script=[(2, "trunc"), (3, "term"), (1, "both")], budget=17, start=3, eplimit=0, warm=5, seed=0, gsteps=2),
+        # scenario C: the action space is declared with dtype float64 (continuous routines); exploration noise level 0
+        # (the environment receives exactly the live policy's action after the warm-up)
+        dict(base, label="C", script=[(4, "both"), (2, "trunc"), (3, "term")], budget=30, start=0, eplimit=4, warm=4, act_dtype="float64", expl_noise=0.0),
     ]
     if routine in VALUE_BASED:
         # exploration discipline (C13): epsilon interposed to 0 (always greedy after warm-up) and to 1 (never greedy)
@@ -389,8 +437,8 @@ def scenarios(tier, seed, routine=None):
         scs.append(dict(base, label="P", script=[(3, "term"), (2, "trunc"), (4, "term")], budget=16, start=0, eplimit=0, warm=5, prefill=6))
     if tier == "thorough":
         scs += [
-            dict(base, label="D", script=[(1, "term"), (1, "trunc"), (5, "term")], budget=24, start=2, eplimit=5, warm=7, cap=50),
-            dict(base, label="E", script=[(6, "trunc"), (2, "term")], budget=21, start=0, eplimit=0, warm=8, seed=seed % 1000 + 7),
+            dict(base, label="D", script=[(1, "both"), (1, "trunc"), (5, "term")], budget=24, start=2, eplimit=5, warm=7, cap=50, gsteps=3),
+            dict(base, label="E", script=[(6, "trunc"), (2, "both")], budget=21, start=0, eplimit=0, warm=8, seed=seed % 1000 + 7, expl_noise=0.0),
             # one long episode: the budget ends mid-episode and no episode ever ends
             dict(base, label="L", script=[(50, "term")], budget=13, start=0, eplimit=0, warm=4),
         ]
